@@ -1,225 +1,698 @@
-"""C04 translator: extracts the table-shaped parts of FORD's permission mechanism
-from ford/sourceform.py (with `ast`) and writes lean/FordModel/Generated/C04.lean.
+"""C04 translator: measures the table-shaped parts of FORD's permission mechanism on the code under test and writes
+lean/FordModel/Generated/C04.lean.
 
-Extracted (all from the working tree's source, every run):
-  * the word lists of the `in [...]` tests that recognise access words
-      - bare statement            FortranContainer.__init__      `line_lower in [...]`
-      - declaration attributes    line_to_variables              `tmp_attrib_lower in [...]`
-      - type attributes           FortranType._initialize        `attrib_lower in [...]`
-      - binding attributes        FortranBoundProcedure._initialize `attribute in [...]`
-      - access statements applied FortranCodeUnit.process_attribs (item loop, variable loop)
-  * the category order of the two loops of process_attribs and of public_list
-  * which of `self.permission` / `child_permission` is handed to each child constructor
-  * the initial / reset constants: child permission of a type, the reset at a type's
-    CONTAINS, the forced permission of a submodule, the default `inherited_permission`.
-  * `itemPasses`: the entity lists of the first loop of process_attribs alone (the repaired deletion order
-    applies to that loop only), `exportWords`: the permissions `FortranModule._cleanup` lets into the
-    pub_* tables (`should_be_public`)
-  * the truth table of the getter `FortranProcedure.permission` (by evaluating the property on stub
-    objects: parent = generic interface / non-generic interface / module): does a procedure report its
-    parent's permission (`readGeneric`, `readWrapper`, `readModule`)
-  * the two character tables of the *name keying* of declarations, measured by parsing one-line modules with the
-    code under test, one per printable ASCII character c (`probe_decl_names`):
-      - `declDropChars`: `integer :: ab<c>(2)` declares the array `ab` (shape `(2)`): c is dropped from an
-        entity-decl before the name is taken (as the code stands: the blank)
-      - `cutChars`: `integer :: ab<c>2` declares `ab` with the "dimension" `<c>2`: c ends the name
-        (`FortranVariable.__init__`: `(`, `*`, `[`)
-    and the characters at which `ford.utils.paren_split` changes its nesting level (`splitLevelChars`,
-    evaluated on the real function; the shared model `Ford.parenSplit` has them built in).
-A construct that cannot be found raises (=> "tie broken", never a pass).
+Round 5: every table is obtained by **running the real code on minimal probe programs** (a few hundred tiny
+modules / submodules / derived types, parsed with `FortranSourceFile`, plus two small projects that are correlated),
+never by reading the source text.  A table therefore follows what the code *does*: renaming a local, hoisting a word
+list into a constant, extracting a helper, turning an if/elif chain into a lookup or re-ordering independent
+statements leaves every table as it is, while a change of behaviour on the probe programs changes a table and
+thereby a proof obligation (`generated_tables_sound`, `apply_tables_sound`, `implementation_tables_sound`, ...).
+
+Measured (all on the working tree, every run):
+  * the access words recognised
+      - on a declaration            `integer, <w> :: v`                   varAttrWords
+      - on a derived-type statement `type, <w> :: t`                      typeAttrWords
+      - on a binding                `procedure, <w> :: b => impl`         bindAttrWords
+      - in an attribute statement   `<w> :: name`, per entity list        applyWords (the five item lists must
+        agree), applyVarWords (variables), and - when process_attribs walks them - the interface bodies of a generic
+        interface (must agree with applyWords)
+      - as a bare statement         `<w>`                                 bareWords
+  * the **transition tables** of the attribute-statement loops: for every permission `cur` an entity can have when
+    process_attribs starts and every access word `w` of a statement naming it, the permission afterwards
+    (`itemTrans`, `varTrans`: triples (cur, w, result)).  The model has "a recognised word overwrites" built in;
+    `apply_tables_sound` proves the measured tables say exactly that.
+  * the permission a child inherits, for every child kind, in a module / submodule after every sequence of at most
+    one bare statement, and in the component part / binding part of a derived type (type public / private) after
+    `private`/`public`/`protected` before / after CONTAINS.  The thirteen structural parameters of the model
+    (moduleInit, submoduleInit, typeChildInit, containsReset, bareWords, bareSetsChild, bareSetsSelf, which of
+    `self.permission` / `child_permission` each of the six child constructors receives) are **fitted** to these
+    observations with a Python transcript of the model's inheritance rules (`predict_unit`, `predict_type`): the
+    preferred tuple is tried first, then all others by increasing distance; no consistent tuple => tie broken.
+    Where the two permissions can never differ (e.g. a subroutine of a module) the parameter is not identifiable and
+    the preferred value stands - exactly the cases in which a change of that argument is harmless.
+  * the order in which process_attribs looks the entity lists up and forgets the names, by handing it an `attr_dict`
+    that logs its accesses (itemPasses, attribPasses, specLoopInSource, delAfterLoopInSource); the categories and
+    the word of `public_list` (publicListCats, publicWord) from the list it leaves behind
+  * the permissions that put an entity into the pub_* tables (exportWords), from the tables of the probe modules
+  * the truth table of the getter `FortranProcedure.permission` (stub objects; readGeneric / readWrapper / readModule)
+  * whether `correlate` hands the accessibility of a separate module procedure's interface to its implementation in
+    a submodule (`implShortTakesIface`: `module procedure f ... end procedure`, `implLongTakesIface`:
+    `module subroutine f ...`), on a real project
+  * the character tables of the name keying (`declDropChars`, `cutChars`, `splitLevelChars`, `splitPairs`)
+A probe that cannot be evaluated, or an observation the model cannot express, raises (=> "tie broken", never a pass).
 """
 from __future__ import annotations
 
-import ast
+import itertools
+from collections import defaultdict
 from pathlib import Path
 
 PERM = {"public": ".pub", "private": ".priv", "protected": ".prot"}
+W = ["public", "private", "protected"]
 CAT = {"functions": ".func", "subroutines": ".sub", "types": ".type", "interfaces": ".iface",
        "absinterfaces": ".absIface", "variables": ".var"}
+# child kinds of a module / submodule: how they are written, in which list they are found, which parameter of the
+# model says what they inherit
+KINDS = ["var", "type", "generic", "plain", "abstract", "sub", "func"]
+LIST_OF = {"var": "variables", "type": "types", "generic": "interfaces", "plain": "interfaces",
+           "abstract": "absinterfaces", "sub": "subroutines", "func": "functions"}
+SRC_OF = {"var": "srcVariables", "type": "srcType", "generic": "srcInterface", "plain": "srcInterface",
+          "abstract": "srcInterface", "sub": "srcSubroutine", "func": "srcFunction"}
 
 
 class NotFound(Exception):
     pass
 
 
-def _func(tree, cls, name):
-    for node in ast.walk(tree):
-        if cls is None and isinstance(node, ast.FunctionDef) and node.name == name and node.col_offset == 0:
-            return node
-        if isinstance(node, ast.ClassDef) and node.name == cls:
-            for f in node.body:
-                if isinstance(f, ast.FunctionDef) and f.name == name:
-                    return f
-    raise NotFound(f"{cls}.{name} not found")
+# ---------------------------------------------------------------------------
+# probe programs
+# ---------------------------------------------------------------------------
 
 
-def _strs(node):
-    if isinstance(node, (ast.List, ast.Tuple, ast.Set)) and node.elts and all(
-            isinstance(e, ast.Constant) and isinstance(e.value, str) for e in node.elts):
-        return [e.value for e in node.elts]
+def decl(kind, name, attr=None):
+    """(specification-part lines, procedure-part lines) declaring one entity of the given kind"""
+    a = f", {attr}" if attr else ""
+    if kind == "var":
+        return [f"integer{a} :: {name}"], []
+    if kind == "type":
+        return [f"type{a} :: {name}", "  integer :: c", f"end type {name}"], []
+    if kind == "generic":
+        return [f"interface {name}", f"  subroutine {name}_body(x)", "    integer :: x", f"  end subroutine {name}_body",
+                f"end interface {name}"], []
+    if kind in ("plain", "abstract"):
+        return [("abstract " if kind == "abstract" else "") + "interface", f"  subroutine {name}(x)", "    integer :: x",
+                f"  end subroutine {name}", "end interface"], []
+    if kind == "sub":
+        return [], [f"subroutine {name}(x)", "  integer :: x", f"end subroutine {name}"]
+    if kind == "func":
+        return [], [f"function {name}(x) result(r)", "  integer :: x, r", f"end function {name}"]
+    raise ValueError(kind)
+
+
+def unit_text(name, sub, spec, procs):
+    head = f"submodule (c04_tr_host) {name}" if sub else f"module {name}"
+    tail = f"end submodule {name}" if sub else f"end module {name}"
+    body = ["  " + x for x in spec]
+    if procs:
+        body += ["contains"] + ["  " + x for x in procs]
+    return "\n".join([head] + body + [tail]) + "\n"
+
+
+class Prober:
+    """parses probe units with the code under test (`FortranSourceFile`, no project, no correlate)"""
+
+    def __init__(self, d: Path):
+        from harness import common
+
+        self.common = common
+        common.import_ford()
+        import ford.sourceform as sf
+        from ford.settings import ProjectSettings
+
+        self.sf = sf
+        self.d = d
+        self.settings = ProjectSettings(src_dir=[d], preprocess=False, dbg=True, warn=False,
+                                        display=["public", "private", "protected"])
+        self.n = 0
+        self.parses = 0
+
+    def fresh(self, prefix="c04_tr_u"):
+        self.n += 1
+        return f"{prefix}{self.n}"
+
+    def _parse_file(self, text):
+        f = self.d / "probe.f90"
+        f.write_text(text)
+        self.sf.namelist = self.sf.NameSelector()
+        self.parses += 1
+        with self.common.quiet():
+            src = self.sf.FortranSourceFile(str(f), self.settings)
+        return {u.name.lower(): u for u in list(src.modules) + list(src.submodules)}
+
+    def parse_many(self, texts: dict) -> dict:
+        """{unit name: text} -> {unit name: parsed unit or None}.  One parse for all; if that fails, one each."""
+        try:
+            units = self._parse_file("\n".join(texts.values()))
+            if all(n in units for n in texts):
+                return {n: units[n] for n in texts}
+        except Exception:
+            pass
+        out = {}
+        for n, t in texts.items():
+            try:
+                out[n] = self._parse_file(t).get(n)
+            except Exception:
+                out[n] = None
+        return out
+
+
+def find(unit, kind, name):
+    for x in getattr(unit, LIST_OF[kind], []):
+        if x.name.lower() == name:
+            return x
     return None
 
 
-def _in_lists(fn, var=None):
-    """word lists of `X in [..]` tests whose words are all access words, in source order"""
-    out = []
-    for node in ast.walk(fn):
-        if isinstance(node, ast.Compare) and len(node.ops) == 1 and isinstance(node.ops[0], ast.In):
-            words = _strs(node.comparators[0])
-            if words and set(words) <= set(PERM) :
-                if var is None or (isinstance(node.left, ast.Name) and node.left.id == var):
-                    out.append((node.lineno, words))
-    return [w for _, w in sorted(out)]
+# ---------------------------------------------------------------------------
+# the model's inheritance rules, transcribed (Access.lean: `step`, `tstep`, `mkEnts`, `pick`)
+# ---------------------------------------------------------------------------
+
+PARAMS = ["moduleInit", "submoduleInit", "typeChildInit", "containsReset", "bareWords", "bareSetsChild", "bareSetsSelf",
+          "srcSubroutine", "srcFunction", "srcType", "srcInterface", "srcBoundProc", "srcVariables"]
+# where the search starts (a tuple is accepted only if it reproduces *every* observation)
+PREFERRED = {"moduleInit": "public", "submoduleInit": "private", "typeChildInit": "public", "containsReset": "public",
+             "bareWords": ("public", "private", "protected"), "bareSetsChild": True, "bareSetsSelf": True,
+             "srcSubroutine": ".self", "srcFunction": ".self", "srcType": ".self", "srcInterface": ".self",
+             "srcBoundProc": ".child", "srcVariables": ".child"}
 
 
-def _one(lists, what):
-    if len(lists) != 1:
-        raise NotFound(f"{what}: expected exactly one access-word test, found {len(lists)}")
-    return lists[0]
+def _subsets(ws):
+    return [tuple(w for w in ws if w in s) for r in range(len(ws), -1, -1) for s in itertools.combinations(ws, r)]
 
 
-def _iterator_args(call):
-    if (isinstance(call, ast.Call) and isinstance(call.func, ast.Attribute) and call.func.attr == "iterator"):
-        names = [a.value for a in call.args if isinstance(a, ast.Constant)]
-        if len(names) == len(call.args):
-            return names
-    return None
+DOMAIN = {"moduleInit": W, "submoduleInit": W, "typeChildInit": W, "containsReset": W, "bareWords": _subsets(W),
+          "bareSetsChild": [True, False], "bareSetsSelf": [True, False],
+          **{k: [".self", ".child"] for k in PARAMS if k.startswith("src")}}
 
 
-def _is_self_attr(node, attr):
-    return isinstance(node, ast.Attribute) and node.attr == attr and isinstance(node.value, ast.Name) and node.value.id == "self"
+def predict_unit(P, sub, hist, kind):
+    """permission a child of `kind` inherits in a module / submodule after the bare statements `hist`"""
+    perm = child = P["submoduleInit"] if sub else P["moduleInit"]
+    for w in hist:
+        if w in P["bareWords"]:
+            if P["bareSetsChild"]:
+                child = w
+            if P["bareSetsSelf"]:
+                perm = w
+    return perm if P[SRC_OF[kind]] == ".self" else child
 
 
-def _src(arg, what):
-    if _is_self_attr(arg, "permission"):
-        return ".self"
-    if isinstance(arg, ast.Name) and arg.id == "child_permission":
-        return ".child"
-    raise NotFound(f"{what}: permission argument is neither self.permission nor child_permission: {ast.dump(arg)[:80]}")
+def predict_type(P, tperm, pre, post, which):
+    """permission a component (declared after the bare statements `pre`) / a binding (after `pre`, CONTAINS, `post`)
+    inherits in a derived type whose own permission is `tperm`"""
+    child = P["typeChildInit"]
+    for w in pre:
+        if w in P["bareWords"] and P["bareSetsChild"]:
+            child = w
+    if which == "comp":
+        return tperm if P["srcVariables"] == ".self" else child
+    child = P["containsReset"]
+    for w in post:
+        if w in P["bareWords"] and P["bareSetsChild"]:
+            child = w
+    return tperm if P["srcBoundProc"] == ".self" else child
 
 
-def extract(repo: Path) -> dict:
-    src = (repo / "ford" / "sourceform.py").read_text()
-    tree = ast.parse(src)
-    t: dict = {}
-    init = _func(tree, "FortranContainer", "__init__")
-    t["bareWords"] = _one(_in_lists(init, "line_lower"), "bare access statement")
-    t["varAttrWords"] = _one(_in_lists(_func(tree, None, "line_to_variables")), "line_to_variables")
-    t["typeAttrWords"] = _one(_in_lists(_func(tree, "FortranType", "_initialize")), "FortranType._initialize")
-    t["bindAttrWords"] = _one(_in_lists(_func(tree, "FortranBoundProcedure", "_initialize")),
-                              "FortranBoundProcedure._initialize")
-    pa = _func(tree, "FortranCodeUnit", "process_attribs")
-    loops = [n for n in pa.body if isinstance(n, ast.For)]
-    # (candidate repair C04-specific-access-statement) a loop over the generic interfaces alone that hands the access
-    # words to their interface bodies; it is modelled as the run-time variant `specLoop` (first thing in
-    # process_attribs, same word list, nothing deleted) - anything else about it is a broken tie
-    spec_loop = [n for n in loops if _iterator_args(n.iter) == ["interfaces"]]
-    item_loop = [n for n in loops if _iterator_args(n.iter) and n not in spec_loop]
-    var_loop = [n for n in loops if _is_self_attr(n.iter, "variables")]
-    if len(item_loop) != 1 or len(var_loop) != 1 or len(spec_loop) > 1:
-        raise NotFound("process_attribs: item loop / variable loop not found")
-    if item_loop[0].lineno > var_loop[0].lineno:
-        raise NotFound("process_attribs: variable loop now precedes the item loop")
-    t["specLoopInSource"] = bool(spec_loop)
-    if spec_loop:
-        if spec_loop[0].lineno > item_loop[0].lineno:
-            raise NotFound("process_attribs: the loop over the interface bodies must come first (it sees the whole attr_dict)")
-        if any(isinstance(x, ast.Delete) for x in ast.walk(spec_loop[0])):
-            raise NotFound("process_attribs: the loop over the interface bodies deletes attr_dict entries")
-        spec_words = _one(_in_lists(spec_loop[0]), "process_attribs loop over the interface bodies")
-    t["itemPasses"] = _iterator_args(item_loop[0].iter)
+def fit(observations):
+    """observations: list of (predictor, args, observed).  First parameter tuple (preferred one first, then by
+    increasing number of parameters that differ from it) that reproduces all of them."""
+
+    def ok(P):
+        return all(f(P, *args) == got for f, args, got in observations)
+
+    if ok(PREFERRED):
+        return dict(PREFERRED)
+    combos = itertools.product(*[DOMAIN[k] for k in PARAMS])
+    ranked = sorted(combos, key=lambda c: sum(1 for k, v in zip(PARAMS, c) if PREFERRED[k] != v))
+    for c in ranked:
+        P = dict(zip(PARAMS, c))
+        if ok(P):
+            return P
+    bad = [(f.__name__, args, got, f(PREFERRED, *args)) for f, args, got in observations if f(PREFERRED, *args) != got]
+    raise NotFound("no setting of the model's structural parameters reproduces what children inherit in the probe "
+                   f"programs; against the preferred setting: {bad[:4]}")
+
+
+# ---------------------------------------------------------------------------
+# measurements
+# ---------------------------------------------------------------------------
+
+
+def measure_inheritance(pr: Prober):
+    """what every child kind inherits: units x bare-statement histories, derived types x bare statements around
+    CONTAINS.  Returns (fit observations, lookup tables used by the later probes)."""
+    texts, meta = {}, {}
+    hists = [()] + [(w,) for w in W] + [("private", "public"), ("public", "private"), ("protected", "private")]
+    for sub in (False, True):
+        for h in hists:
+            name = pr.fresh()
+            spec, procs = list(h), []
+            for k in KINDS:
+                s, p = decl(k, f"e_{k}")
+                spec += s
+                procs += p
+            texts[name] = unit_text(name, sub, spec, procs)
+            meta[name] = (sub, h)
+    # derived types
+    tname = pr.fresh()
+    tspec, tmeta, tattr_of = [], {}, {}
+    k = 0
+    for tattr in (None, "public", "private"):
+        for pre in [()] + [(w,) for w in W]:
+            for post in [()] + [(w,) for w in W]:
+                k += 1
+                t = f"t{k}"
+                tspec += [f"type{', ' + tattr if tattr else ''} :: {t}"] + [f"  {w}" for w in pre] + ["  integer :: c1", "contains"] \
+                    + [f"  {w}" for w in post] + ["  procedure :: b1 => impl", f"end type {t}"]
+                tmeta[t] = (pre, post)
+                tattr_of[t] = tattr
+    texts[tname] = unit_text(tname, False, tspec, ["subroutine impl(x)", "  integer :: x", "end subroutine impl"])
+    units = pr.parse_many(texts)
+    obs = []
+    inherited = {}  # (sub, hist, kind) -> permission
+    for name, (sub, h) in meta.items():
+        u = units[name]
+        if u is None:
+            raise NotFound(f"probe unit could not be parsed: {texts[name]!r}")
+        for kind in KINDS:
+            e = find(u, kind, f"e_{kind}")
+            if e is None:
+                raise NotFound(f"probe: the {kind} of {'a submodule' if sub else 'a module'} is not in `{LIST_OF[kind]}`")
+            if e.permission not in PERM:
+                raise NotFound(f"probe: {kind} reports permission {e.permission!r}")
+            obs.append((predict_unit, (sub, h, kind), e.permission))
+            inherited[(sub, h, kind)] = e.permission
+    u = units[tname]
+    if u is None:
+        raise NotFound("probe module with derived types could not be parsed")
+    tinh = {}
+    for t in u.types:
+        pre, post = tmeta[t.name.lower()]
+        comps = [c for c in t.variables if c.name.lower() == "c1"]
+        binds = [b for b in t.boundprocs if b.name.lower() == "b1"]
+        if len(comps) != 1 or len(binds) != 1:
+            raise NotFound("probe: component / binding of a probe type not found")
+        obs.append((predict_type, (t.permission, pre, post, "comp"), comps[0].permission))
+        obs.append((predict_type, (t.permission, pre, post, "bind"), binds[0].permission))
+        tinh[(tattr_of[t.name.lower()], pre, post)] = (t.permission, binds[0].permission)
+    return obs, inherited, tinh
+
+
+def recognised(w, inherited, observed, what):
+    if observed == w and inherited != w:
+        return True
+    if observed == inherited and inherited != w:
+        return False
+    raise NotFound(f"{what}: with the word `{w}` the entity reports {observed!r} (it inherits {inherited!r})")
+
+
+def measure_words(pr: Prober, inherited, tinh):
+    """which access words are recognised where, and what an attribute statement does to an entity that already has
+    a permission (transition tables)"""
+    t = {}
+    # --- attributes of declarations -------------------------------------------------------------------------
+    texts, meta = {}, {}
+    for kind, key in (("var", "varAttrWords"), ("type", "typeAttrWords")):
+        for w in W:
+            ctx = [sub for sub in (False, True) if inherited[(sub, (), kind)] != w]
+            if not ctx:
+                raise NotFound(f"{key}: no probe context in which a {kind} does not inherit `{w}` already")
+            name = pr.fresh()
+            s, p = decl(kind, "e1", w)
+            texts[name] = unit_text(name, ctx[0], s, p)
+            meta[name] = (key, kind, w, inherited[(ctx[0], (), kind)])
+    # bindings: a binding part in which the binding does not inherit `w`
+    bname = pr.fresh()
+    bspec, bmeta = [], {}
+    for i, w in enumerate(W):
+        # a binding part (type attribute, bare statements after CONTAINS) in which a binding does not inherit `w`
+        ctx = [key for key, (tp, inh) in sorted(tinh.items(), key=lambda x: (x[0][0] is not None, len(x[0][2]), str(x)))
+               if inh != w and not key[1]]
+        if not ctx:
+            raise NotFound(f"bindAttrWords: no probe context in which a binding does not inherit `{w}` already")
+        tattr, pre, post = ctx[0]
+        bspec += [f"type{', ' + tattr if tattr else ''} :: bt{i}"] + ["  integer :: c1", "contains"] + [f"  {x}" for x in post] \
+            + [f"  procedure, {w} :: b1 => impl", f"end type bt{i}"]
+        bmeta[f"bt{i}"] = (w, tinh[ctx[0]][1], tinh[ctx[0]][0])
+    texts[bname] = unit_text(bname, False, bspec, ["subroutine impl(x)", "  integer :: x", "end subroutine impl"])
+    units = pr.parse_many(texts)
+    for key in ("varAttrWords", "typeAttrWords", "bindAttrWords"):
+        t[key] = []
+    for name, (key, kind, w, inh) in meta.items():
+        u = units[name]
+        e = find(u, kind, "e1") if u is not None else None
+        if e is None:
+            raise NotFound(f"{key}: probe declaration with the attribute `{w}` was not parsed")
+        if recognised(w, inh, e.permission, key):
+            t[key].append(w)
+    u = units[bname]
+    if u is None:
+        raise NotFound("bindAttrWords: probe module could not be parsed")
+    for ty in u.types:
+        w, inh, tp = bmeta[ty.name.lower()]
+        if ty.permission != tp:
+            raise NotFound("bindAttrWords: probe type has another permission than in the inheritance probe")
+        b = [b for b in ty.boundprocs if b.name.lower() == "b1"]
+        if len(b) != 1:
+            raise NotFound(f"bindAttrWords: binding with the attribute `{w}` was not parsed")
+        if recognised(w, inh, b[0].permission, "bindAttrWords"):
+            t["bindAttrWords"].append(w)
+
+    # --- attribute statements: every entity list x every current permission x every word -----------------------------
+    # ways to give an entity of a kind the permission `cur` before process_attribs runs
+    def ways(kind):
+        out = {}
+        for sub in (False, True):
+            for h in [()] + [(w,) for w in W]:
+                out.setdefault(inherited[(sub, h, kind)], (sub, h, None))
+        attr_key = {"var": "varAttrWords", "type": "typeAttrWords"}.get(kind)
+        if attr_key:
+            for w in t[attr_key]:
+                out[w] = (False, (), w)  # the attribute is the plainest way
+        return out
+
+    texts, meta = {}, {}
+    for kind in KINDS + ["specific"]:
+        base = "generic" if kind == "specific" else kind
+        for cur, (sub, h, attr) in ways(base).items():
+            for w in W:
+                name = pr.fresh()
+                s, p = decl(base, "e1", attr)
+                target = "e1_body" if kind == "specific" else "e1"
+                stmt = f"{w} :: {target}"
+                spec = list(h) + ([stmt] + s if pr.n % 2 else s + [stmt])  # before / after the declaration
+                texts[name] = unit_text(name, sub, spec, p)
+                meta[name] = (kind, cur, w, sub)
+    units = pr.parse_many(texts)
+    trans = defaultdict(dict)  # kind -> {(cur, w): result}
+    exports = defaultdict(set)  # (table) -> {(permission, listed)}
+    for name, (kind, cur, w, sub) in meta.items():
+        u = units[name]
+        if u is None:
+            raise NotFound(f"attribute statement probe could not be parsed: {texts[name]!r}")
+        if kind == "specific":
+            g = find(u, "generic", "e1")
+            e = [r for r in getattr(g, "routines", []) if r.name.lower() == "e1_body"] if g is not None else []
+            e = e[0] if e else None
+        else:
+            e = find(u, kind, "e1")
+        if e is None:
+            raise NotFound(f"attribute statement probe: the {kind} named in `{w} :: ...` is not in its list")
+        if e.permission not in PERM:
+            raise NotFound(f"attribute statement probe: {kind} reports permission {e.permission!r}")
+        trans[kind][(cur, w)] = e.permission
+        if not sub and kind != "specific":
+            tab = {"var": "pub_vars", "type": "pub_types", "abstract": "pub_absints"}.get(kind, "pub_procs")
+            exports[tab].add((e.permission, "e1" in {k.lower() for k in getattr(u, tab, {})}))
+
+    def words_of(kind):
+        """the words an attribute statement applies to this kind; the model can express only 'a recognised word
+        overwrites whatever is there, any other leaves it' - the transition table itself is proved to say that"""
+        ws = []
+        for w in W:
+            moved = [cur for (cur, w_), res in trans[kind].items() if w_ == w and cur != w and res == w]
+            if moved:
+                ws.append(w)
+        return ws
+
+    item_kinds = ["func", "sub", "type", "generic", "plain", "abstract"]
+    per_kind = {k: words_of(k) for k in item_kinds}
+    if len({tuple(v) for v in per_kind.values()}) != 1:
+        raise NotFound(f"process_attribs applies different access words to different entity lists: {per_kind}")
+    t["applyWords"] = per_kind["func"]
+    t["applyVarWords"] = words_of("var")
+    merged = {}
+    for k in item_kinds:
+        for cw, res in trans[k].items():
+            if merged.setdefault(cw, res) != res:
+                raise NotFound(f"process_attribs: an attribute statement `{cw[1]}` turns a {cw[0]} entity into {res} in "
+                               f"the list of {k} but into {merged[cw]} in another list")
+    t["itemTrans"] = sorted((c, w, r) for (c, w), r in merged.items())
+    t["varTrans"] = sorted((c, w, r) for (c, w), r in trans["var"].items())
+    t["_specTrans"] = dict(trans["specific"])
+    # --- the pub_* tables -------------------------------------------------------------------------------------------
+    verdict = {}
+    for tab, seen in exports.items():
+        for perm, listed in seen:
+            if verdict.setdefault(perm, listed) != listed:
+                raise NotFound(f"export tables: entities with permission {perm} are listed in one table / case and not in another")
+    if set(verdict) != set(W):
+        raise NotFound(f"export tables: permissions {sorted(set(W) - set(verdict))} not reached by any probe")
+    t["exportWords"] = [w for w in W if verdict[w]]
+    return t
+
+
+class LoggingDict(defaultdict):
+    """`attr_dict` that records in which order names are looked up and forgotten"""
+
+    def __init__(self, other, log):
+        super().__init__(list, other)
+        self.log = log
+
+    def __getitem__(self, k):
+        self.log.append(("get", k))
+        return super().__getitem__(k)
+
+    def get(self, k, default=None):
+        self.log.append(("get", k))
+        return super().get(k, default)
+
+    def __contains__(self, k):
+        self.log.append(("get", k))
+        return super().__contains__(k)
+
+    def __delitem__(self, k):
+        self.log.append(("del", k))
+        return super().__delitem__(k)
+
+    def pop(self, k, *a):
+        self.log.append(("del", k))
+        return super().pop(k, *a)
+
+
+def measure_passes(pr: Prober, apply_words, apply_var_words, spec_trans, getter_redirects):
+    """which entity lists process_attribs serves, in which order, where it forgets the names, and public_list.
+    Behaviour first: which lists react to an attribute statement is known from `measure_words`; whether *every*
+    entity of a name sees the statement from two probe modules; the order of the lists - which only matters when
+    the first entity of a name takes the statement away - from an `attr_dict` that logs its accesses."""
+    sf = pr.sf
+    name = pr.fresh()
+    order = ["func", "sub", "type", "generic", "plain", "abstract", "var"]
+    spec, procs = ["public :: zz_pub", "private :: zz_priv", "protected :: zz_prot"], []
+    for k in reversed(order):  # declaration order differs from every plausible pass order
+        s, p = decl(k, f"e_{k}")
+        spec += s
+        procs += p
+    same1, same2 = pr.fresh(), pr.fresh()
+    texts = {
+        name: unit_text(name, False, spec, procs),
+        # one identifier, two entities: a derived type and its constructor interface; a generic named like its specific
+        same1: unit_text(same1, False, ["private", "public :: t"] + decl("type", "t")[0] + ["interface t", "  module procedure f",
+                                                                                            "end interface t"],
+                         ["function f() result(r)", "  type(t) :: r", "end function f"]),
+        same2: unit_text(same2, False, ["private", "public :: s", "interface s", "  module procedure s", "end interface s"],
+                         decl("sub", "s")[1]),
+    }
+    log = []
+    orig = sf.FortranCodeUnit.process_attribs
+
+    def logged(self):
+        if getattr(self, "name", "").lower() == name and hasattr(self, "attr_dict"):
+            self.attr_dict = LoggingDict(self.attr_dict, log)
+        return orig(self)
+
+    sf.FortranCodeUnit.process_attribs = logged
+    try:
+        units = pr.parse_many(texts)
+    finally:
+        sf.FortranCodeUnit.process_attribs = orig
+    u = units[name]
+    if u is None or units[same1] is None or units[same2] is None:
+        raise NotFound("process_attribs probe modules could not be parsed")
+    t = {}
+    reacts = ["functions", "subroutines", "types", "interfaces", "absinterfaces"] if apply_words else []
+    # --- interface bodies of generic interfaces --------------------------------------------------------------------
+    if getter_redirects:
+        # a procedure of a generic interface reports the generic's permission (readGeneric): what the loop stores
+        # in it cannot be observed
+        spec_trans = {}
+    t["specLoopInSource"] = any(res != cur for (cur, w), res in spec_trans.items())
+    if t["specLoopInSource"]:
+        for (cur, w), res in spec_trans.items():
+            if res != (w if w in apply_words else cur):
+                raise NotFound("process_attribs: the interface bodies of generic interfaces are given other access words "
+                               "than the entities of the item loop")
+    # --- one name, two entities ------------------------------------------------------------------------------------
+    try:
+        pair1 = (find(units[same1], "type", "t").permission, find(units[same1], "generic", "t").permission)
+        pair2 = (find(units[same2], "sub", "s").permission, find(units[same2], "generic", "s").permission)
+    except AttributeError:
+        raise NotFound("process_attribs: type + constructor interface / procedure + generic of one name not found")
+    every_entity = pair1 == ("public", "public") and pair2 == ("public", "public")
+    # --- the log ---------------------------------------------------------------------------------------------------
+    cat_of = {f"e_{k}": LIST_OF[k] for k in order}
+    gets = [k for op, k in log if op == "get"]
+    seq = [cat_of[k] for k in gets if k in cat_of]
+    passes = [c for i, c in enumerate(seq) if i == 0 or seq[i - 1] != c]
+    item = [c for c in passes if c != "variables"]
+    item_names = [k for k in cat_of if cat_of[k] != "variables"]
+    usable = len(passes) == len(set(passes)) and set(item) == set(reacts) and all(k in gets for k in item_names if cat_of[k] in reacts)
+    t["delAfterLoopInSource"] = None
+    if usable:
+        if "variables" in passes and passes[-1] != "variables":
+            raise NotFound("process_attribs: variable loop now precedes the item loop")
+        if "e_generic_body" in gets:
+            if gets.index("e_generic_body") > min(gets.index(k) for k in cat_of if k in gets):
+                raise NotFound("process_attribs: the interface bodies of generic interfaces are looked up after other "
+                               "entities (the model applies the access statements to them first)")
+            if ("del", "e_generic_body") in log:
+                raise NotFound("process_attribs: the loop over the interface bodies forgets attr_dict entries")
+        t["itemPasses"] = item
+        # where the names of the first loop are forgotten
+        last_get = max(i for i, (op, k) in enumerate(log) if op == "get" and k in item_names)
+        dels = [i for i, (op, k) in enumerate(log) if op == "del" and k in item_names]
+        if dels and min(dels) > last_get:
+            t["delAfterLoopInSource"] = True  # every name of the first loop is forgotten when the loop is over
+        elif dels:
+            # per entity: between the look-up of a name and its deletion no other entity of the first loop is looked up
+            def own_window(i):
+                k = log[i][1]
+                js = [x for x in range(i) if log[x] == ("get", k)]
+                return bool(js) and not any(op == "get" and n in item_names and n != k for op, n in log[js[-1]:i])
+            if all(own_window(i) for i in dels):
+                t["delAfterLoopInSource"] = False
+    elif every_entity or not reacts:
+        # every entity of a name sees the statement: the order in which the lists are served has no effect
+        t["itemPasses"] = list(reacts)
+    else:
+        raise NotFound("process_attribs: an attribute statement reaches only one of two entities of one name "
+                       f"(type / constructor {pair1}, procedure / generic {pair2}), so the order of the entity lists "
+                       f"matters, but it could not be observed (names looked up in attr_dict: {gets[:12]})")
+    if bool(apply_var_words) and usable and "variables" not in passes:
+        raise NotFound("process_attribs: attribute statements reach variables but their names are never looked up in attr_dict")
     t["attribPasses"] = t["itemPasses"] + ["variables"]
-    t["applyWords"] = _one(_in_lists(item_loop[0]), "process_attribs item loop")
-    if spec_loop and spec_words != t["applyWords"]:
-        raise NotFound("process_attribs: the loop over the interface bodies recognises other access words than the item loop")
-    t["applyVarWords"] = _one(_in_lists(var_loop[0]), "process_attribs variable loop")
-    pl = None
-    for node in ast.walk(pa):
-        if isinstance(node, ast.Assign) and any(_is_self_attr(x, "public_list") for x in node.targets):
-            for sub in ast.walk(node.value):
-                if _iterator_args(sub):
-                    pl = _iterator_args(sub)
-            for sub in ast.walk(node.value):
-                if isinstance(sub, ast.Compare) and isinstance(sub.ops[0], ast.Eq) and \
-                        isinstance(sub.comparators[0], ast.Constant):
-                    t["publicWord"] = sub.comparators[0].value
-    if pl is None or "publicWord" not in t:
-        raise NotFound("process_attribs: public_list comprehension not found")
-    t["publicListCats"] = pl
-    for names in (t["attribPasses"], t["publicListCats"]):
-        for n in names:
-            if n not in CAT:
-                raise NotFound(f"unknown entity list {n!r} in process_attribs")
+    # public_list: which permission, which lists, in which order
+    pl = [x.lower() for x in getattr(u, "public_list", [])]
+    listed = [cat_of[x] for x in pl if x in cat_of]
+    t["publicListCats"] = [c for i, c in enumerate(listed) if i == 0 or listed[i - 1] != c]
+    if len(t["publicListCats"]) != len(set(t["publicListCats"])):
+        raise NotFound(f"public_list: entity lists interleaved: {listed}")
+    left = [x for x in pl if x.startswith("zz_")]
+    if len(left) != 1 or left[0][3:] not in ("pub", "priv", "prot"):
+        raise NotFound(f"public_list: of the undeclared names of `public ::` / `private ::` / `protected ::` it keeps {left}")
+    t["publicWord"] = {"pub": "public", "priv": "private", "prot": "protected"}[left[0][3:]]
+    perms = {find(u, k, f"e_{k}").permission for k in order}
+    if perms != {t["publicWord"]}:
+        raise NotFound(f"public_list probe: entities of a module without access statements report {perms}, the word of public_list is {t['publicWord']}")
+    if set(t["publicListCats"]) != set(CAT):
+        # every entity of the probe module is public: a list that is missing is not part of public_list
+        pass
+    for c in t["publicListCats"]:
+        if c not in CAT:
+            raise NotFound(f"unknown entity list {c!r} in public_list")
+    # an entity that is not public is not listed
+    name2 = pr.fresh()
+    spec, procs = ["private"], []
+    for k in order:
+        s, p = decl(k, f"e_{k}")
+        spec += s
+        procs += p
+    u2 = pr.parse_many({name2: unit_text(name2, False, spec, procs)})[name2]
+    if u2 is None:
+        raise NotFound("public_list probe module could not be parsed")
+    for k in order:
+        e = find(u2, k, f"e_{k}")
+        if (e.permission == t["publicWord"]) != (f"e_{k}" in [x.lower() for x in u2.public_list]) and LIST_OF[k] in t["publicListCats"]:
+            raise NotFound(f"public_list: a {k} with permission {e.permission} is {'listed' if e.permission != t['publicWord'] else 'not listed'}")
+    return t
 
-    # permission argument of each child constructor in the cascade
-    want = {"FortranSubroutine": "srcSubroutine", "FortranFunction": "srcFunction", "FortranType": "srcType",
-            "FortranInterface": "srcInterface", "FortranBoundProcedure": "srcBoundProc",
-            "line_to_variables": "srcVariables"}
-    found: dict[str, set] = {}
-    for node in ast.walk(init):
-        if isinstance(node, ast.Call) and isinstance(node.func, ast.Name) and node.func.id in want:
-            if node.func.id == "line_to_variables":
-                arg = node.args[2]
-            else:
-                if len(node.args) < 4:
-                    raise NotFound(f"{node.func.id}: no inherited-permission argument (default would be used)")
-                arg = node.args[3]
-            found.setdefault(want[node.func.id], set()).add(_src(arg, node.func.id))
-    for k in want.values():
-        if k not in found or len(found[k]) != 1:
-            raise NotFound(f"constructor call for {k}: {found.get(k)}")
-        t[k] = found[k].pop()
 
-    # constants
-    t["typeChildInit"] = t["containsReset"] = t["submoduleInit"] = None
-    for node in ast.walk(init):
-        if isinstance(node, ast.Assign) and len(node.targets) == 1 and isinstance(node.targets[0], ast.Name) \
-                and node.targets[0].id == "child_permission":
-            v = node.value
-            if isinstance(v, ast.IfExp) and isinstance(v.body, ast.Constant) and _is_self_attr(v.orelse, "permission") \
-                    and "FortranType" in ast.dump(v.test):
-                t["typeChildInit"] = v.body.value
-        if isinstance(node, ast.If):
-            d = ast.dump(node.test)
-            if "FortranSubmodule" in d and isinstance(node.test, ast.Compare) and isinstance(node.test.ops[0], ast.Is):
-                for b in node.body:
-                    if isinstance(b, ast.Assign) and _is_self_attr(b.targets[0], "permission") and isinstance(b.value, ast.Constant):
-                        t["submoduleInit"] = b.value.value
-            if isinstance(node.test, ast.Compare) and isinstance(node.test.left, ast.Name) and node.test.left.id == "line_lower" \
-                    and isinstance(node.test.comparators[0], ast.Constant) and node.test.comparators[0].value == "contains":
-                for sub in ast.walk(node):
-                    if isinstance(sub, ast.If) and "FortranType" in ast.dump(sub.test):
-                        for b in sub.body:
-                            if isinstance(b, ast.Assign) and isinstance(b.targets[0], ast.Name) and \
-                                    b.targets[0].id == "child_permission" and isinstance(b.value, ast.Constant):
-                                t["containsReset"] = b.value.value
-    for k in ("typeChildInit", "containsReset", "submoduleInit"):
-        if t[k] not in PERM:
-            raise NotFound(f"{k}: constant not found in FortranContainer.__init__ ({t[k]!r})")
-    # the bare statement must set both child_permission and (for non-types) self.permission
-    bare_sets = {"child": False, "self": False}
-    for node in ast.walk(init):
-        if isinstance(node, ast.If) and isinstance(node.test, ast.Compare) and _strs(node.test.comparators[0]) == t["bareWords"] \
-                and isinstance(node.test.left, ast.Name) and node.test.left.id == "line_lower":
-            for sub in ast.walk(ast.Module(body=node.body, type_ignores=[])):
-                if isinstance(sub, ast.Assign) and isinstance(sub.value, ast.Name) and sub.value.id == "line_lower":
-                    if isinstance(sub.targets[0], ast.Name) and sub.targets[0].id == "child_permission":
-                        bare_sets["child"] = True
-                    if _is_self_attr(sub.targets[0], "permission"):
-                        bare_sets["self"] = True
-    t["bareSetsChild"] = bare_sets["child"]
-    t["bareSetsSelf"] = bare_sets["self"]
-    # default of inherited_permission in FortranBase.__init__
-    base = _func(tree, "FortranBase", "__init__")
-    names = [a.arg for a in base.args.args]
-    defaults = dict(zip(names[len(names) - len(base.args.defaults):], base.args.defaults))
-    d = defaults.get("inherited_permission")
-    if not (isinstance(d, ast.Constant) and d.value in PERM):
-        raise NotFound("FortranBase.__init__: default of inherited_permission")
-    t["moduleInit"] = d.value
-    # the permissions that put an entity into a module's pub_* tables
-    t["exportWords"] = _one(_in_lists(_func(tree, "FortranModule", "_cleanup")), "FortranModule._cleanup should_be_public")
-    t.update(probe_getter())
+def probe_impl() -> dict:
+    """Does `correlate` hand the accessibility of the interface of a separate module procedure (in the ancestor
+    module) to its implementation in a submodule?  Real project: module with a public and a private interface body,
+    child and grandchild submodule implementing them in the short (`module procedure f`) and in the long form."""
+    from harness import common
+
+    common.import_ford()
+    import ford.sourceform as sf
+    from ford.fortran_project import Project
+    from ford.settings import ProjectSettings
+
+    names = ["ia", "ib", "ic", "id"]
+    ifc = "\n".join(f"    module subroutine {n}(x)\n      integer :: x\n    end subroutine {n}" for n in names)
+    text = f"""module c04_tr_anc
+  private
+  public :: ia, ib
+  interface
+{ifc}
+  end interface
+end module c04_tr_anc
+
+submodule (c04_tr_anc) c04_tr_s1
+contains
+  module procedure ia
+    x = 1
+  end procedure ia
+  module subroutine ib(x)
+    integer :: x
+  end subroutine ib
+end submodule c04_tr_s1
+
+submodule (c04_tr_anc:c04_tr_s1) c04_tr_s2
+contains
+  module procedure ic
+    x = 1
+  end procedure ic
+  module subroutine id(x)
+    integer :: x
+  end subroutine id
+end submodule c04_tr_s2
+"""
+    with common.scratch_dir("c04-tr-") as d:
+        d = Path(d)
+        (d / "p.f90").write_text(text)
+        sf.namelist = sf.NameSelector()
+        settings = ProjectSettings(src_dir=[d], display=["public", "private", "protected"], dbg=True, preprocess=False,
+                                   graph=False, search=False, warn=False)
+        try:
+            with common.quiet():
+                project = Project(settings)
+                project.correlate()
+        except Exception as e:
+            raise NotFound(f"probe project with submodules could not be correlated: {type(e).__name__}: {e}")
+    anc = {m.name.lower(): m for m in project.modules}.get("c04_tr_anc")
+    subs = {m.name.lower(): m for m in project.submodules}
+    if anc is None or set(subs) != {"c04_tr_s1", "c04_tr_s2"}:
+        raise NotFound("probe project: ancestor module / submodules not found")
+    iface = {i.name.lower(): i.permission for i in anc.interfaces}
+    if iface != {"ia": "public", "ib": "public", "ic": "private", "id": "private"}:
+        raise NotFound(f"probe project: interfaces of the ancestor module report {iface}")
+    own = subs["c04_tr_s1"].permission
+
+    def perm(sub, lists, n):
+        got = [x.permission for l in lists for x in getattr(subs[sub], l, []) if x.name.lower() == n]
+        if len(got) != 1:
+            raise NotFound(f"probe project: implementation {n} of {sub} found {len(got)} times in {lists}")
+        return got[0]
+
+    short = [perm("c04_tr_s1", ["modprocedures"], "ia"), perm("c04_tr_s2", ["modprocedures"], "ic")]
+    long_ = [perm("c04_tr_s1", ["subroutines", "modsubroutines"], "ib"), perm("c04_tr_s2", ["subroutines", "modsubroutines"], "id")]
+
+    def verdict(got, what):
+        if got == [own, own]:
+            return False
+        if got == ["public", "private"] and own != "public":
+            return True
+        raise NotFound(f"probe project: {what} implementations of a public / a private interface report {got} "
+                       f"(the submodule's own permission is {own})")
+
+    return {"implShortTakesIface": verdict(short, "`module procedure`"), "implLongTakesIface": verdict(long_, "`module subroutine`")}
+
+
+def extract(repo: Path | None = None) -> dict:
+    from harness import common
+
+    t: dict = {}
+    with common.scratch_dir("c04-tr-") as d:
+        pr = Prober(Path(d))
+        obs, inherited, tinh = measure_inheritance(pr)
+        t.update(fit(obs))
+        t["bareWords"] = list(t["bareWords"])
+        t.update(measure_words(pr, inherited, tinh))
+        t.update(probe_getter(pr))
+        t.update(measure_passes(pr, t["applyWords"], t["applyVarWords"], t.pop("_specTrans"), t["readGeneric"]))
+        t["probe_parses"] = pr.parses
+    t.update(probe_impl())
     t.update(probe_decl_names())
     return t
 
@@ -263,40 +736,55 @@ def probe_decl_names() -> dict:
     return {"declDropChars": drop, "cutChars": cut, "splitLevelChars": level, "splitPairs": pairs}
 
 
-def probe_getter() -> dict:
-    """Truth table of the property `FortranProcedure.permission`, evaluated on stub objects of the real
-    classes (no parsing involved): which kinds of parent make a procedure report the parent's permission."""
-    from harness import common
-
-    common.import_ford()
-    import ford.sourceform as sf
-
+def probe_getter(pr: Prober) -> dict:
+    """Truth table of the getter `FortranProcedure.permission`: which kinds of parent make a procedure report the
+    parent's permission instead of its own.  Measured on parsed modules: the parent gets an accessibility the
+    procedure's stored one cannot have (an access statement that names the parent only)."""
+    g1, g2, w1, m1 = pr.fresh(), pr.fresh(), pr.fresh(), pr.fresh()
+    texts = {
+        # generic interface named in a statement, its interface body is not
+        g1: unit_text(g1, False, ["private :: g"] + decl("generic", "g")[0], []),
+        g2: unit_text(g2, False, ["private", "public :: g"] + decl("generic", "g")[0], []),
+        # interface body of a plain / an abstract interface block: FORD keeps a wrapper (the interface) and the procedure
+        w1: unit_text(w1, False, ["private", "public :: p, a"] + decl("plain", "p")[0] + decl("abstract", "a")[0], []),
+        # module procedure of a private module, made public by a statement
+        m1: unit_text(m1, False, ["private", "public :: s, f"], decl("sub", "s")[1] + decl("func", "f")[1]),
+    }
+    units = pr.parse_many(texts)
+    if any(u is None for u in units.values()):
+        raise NotFound("FortranProcedure.permission: probe modules could not be parsed")
     out = {}
-    for key, cls, generic in (("readGeneric", sf.FortranInterface, True), ("readWrapper", sf.FortranInterface, False),
-                              ("readWrapperMP", sf.FortranModuleProcedureInterface, False),
-                              ("readModule", sf.FortranModule, None)):
-        seen = set()
-        for pcls in (sf.FortranSubroutine, sf.FortranFunction):
-            try:
-                parent = object.__new__(cls)
-                if generic is not None and cls is sf.FortranInterface:
-                    parent.generic = generic
-                parent.permission = "parent"
-                proc = object.__new__(pcls)
-                proc.permission = "own"
-                proc.parent = parent
-                got = proc.permission
-            except Exception as e:  # the getter needs something the stub does not have
-                raise NotFound(f"FortranProcedure.permission could not be evaluated on a stub ({key}): {type(e).__name__}: {e}")
-            if got not in ("own", "parent"):
-                raise NotFound(f"FortranProcedure.permission returned {got!r} on a stub ({key})")
-            seen.add(got == "parent")
-        if len(seen) != 1:
-            raise NotFound(f"FortranProcedure.permission differs between subroutines and functions ({key})")
-        out[key] = seen.pop()
-    if out.pop("readWrapperMP") != out["readWrapper"]:
-        raise NotFound("FortranProcedure.permission treats FortranInterface(generic=False) and "
-                       "FortranModuleProcedureInterface differently")
+    seen = set()
+    for n, want in ((g1, "private"), (g2, "public")):
+        g = find(units[n], "generic", "g")
+        bodies = [r for r in getattr(g, "routines", []) if r.name.lower() == "g_body"] if g is not None else []
+        if g is None or len(bodies) != 1 or g.permission != want:
+            raise NotFound(f"FortranProcedure.permission: probe with a generic interface made {want} by a statement: "
+                           f"interface reports {getattr(g, 'permission', None)}")
+        seen.add(bodies[0].permission == want)
+    if len(seen) != 1:
+        raise NotFound("FortranProcedure.permission: a procedure of a generic interface follows a `private ::` statement "
+                       "naming the generic but not a `public ::` one (or the reverse)")
+    out["readGeneric"] = seen.pop()
+    seen = set()
+    for kind, nm_ in (("plain", "p"), ("abstract", "a")):
+        i = find(units[w1], kind, nm_)
+        proc = getattr(i, "procedure", None)
+        if i is None or proc is None or i.permission != "public":
+            raise NotFound(f"FortranProcedure.permission: interface body of a {kind} interface block: wrapper / procedure not found")
+        seen.add(proc.permission == "public")
+    if len(seen) != 1:
+        raise NotFound("FortranProcedure.permission treats the bodies of plain and of abstract interface blocks differently")
+    out["readWrapper"] = seen.pop()
+    seen = set()
+    for kind, nm_ in (("sub", "s"), ("func", "f")):
+        e = find(units[m1], kind, nm_)
+        if e is None or e.permission not in PERM:
+            raise NotFound("FortranProcedure.permission: module procedure of the probe module not found")
+        seen.add(e.permission != "public")
+    if len(seen) != 1:
+        raise NotFound("FortranProcedure.permission differs between subroutines and functions (module procedures)")
+    out["readModule"] = seen.pop()
     return out
 
 
@@ -307,7 +795,7 @@ def render(t: dict) -> str:
     def cats(ns):
         return "[" + ", ".join(CAT[n] for n in ns) + "]"
 
-    L = ["/- GENERATED by translate/c04.py from ford/sourceform.py - do not edit -/",
+    L = ["/- GENERATED by translate/c04.py by probing ford/sourceform.py - do not edit -/",
          "import FordModel.AccessTypes", "namespace Ford.Access", ""]
     for k in ("bareWords", "varAttrWords", "typeAttrWords", "bindAttrWords", "applyWords", "applyVarWords"):
         L.append(f"def {k} : List Perm := {perms(t[k])}")
@@ -320,8 +808,12 @@ def render(t: dict) -> str:
         L.append(f"def {k} : Src := {t[k]}")
     for k in ("typeChildInit", "containsReset", "submoduleInit", "moduleInit"):
         L.append(f"def {k} : Perm := {PERM[t[k]]}")
-    for k in ("bareSetsChild", "bareSetsSelf", "readGeneric", "readWrapper", "readModule"):
+    for k in ("bareSetsChild", "bareSetsSelf", "readGeneric", "readWrapper", "readModule", "implShortTakesIface",
+              "implLongTakesIface"):
         L.append(f"def {k} : Bool := {'true' if t[k] else 'false'}")
+    for k in ("itemTrans", "varTrans"):
+        L.append(f"def {k} : List (Perm × Perm × Perm) := [" + ", ".join(
+            f"({PERM[c]}, {PERM[w]}, {PERM[r]})" for c, w, r in t[k]) + "]")
 
     def ch(c):
         return "'\\''" if c == "'" else "'\\\\'" if c == "\\" else f"'{c}'"
@@ -336,6 +828,18 @@ def render(t: dict) -> str:
 def translate():
     from harness import common
 
-    t = extract(common.REPO)
-    common.write_if_changed(common.LEAN / "FordModel" / "Generated" / "C04.lean", render(t))
+    target = common.LEAN / "FordModel" / "Generated" / "C04.lean"
+    try:
+        t = extract(common.REPO)
+    except Exception:
+        # nothing measured: do not leave the tables of an earlier run (possibly of another working tree) behind -
+        # the model is then built with the committed tables, and the failure is reported as a broken tie
+        import subprocess
+
+        rel = target.relative_to(common.LEAN.parent)
+        r = subprocess.run(["git", "-C", str(common.LEAN.parent), "show", f"HEAD:{rel}"], capture_output=True, text=True)
+        if r.returncode == 0 and r.stdout.strip():
+            common.write_if_changed(target, r.stdout)
+        raise
+    common.write_if_changed(target, render(t))
     return t
